@@ -25,8 +25,38 @@ def projection_root(t, allow_copy=True):
             t = t.a[1][0]
         elif t.op == "param":
             return t, "".join(reversed(path))
+        elif t.op == "call" and len(t.a[1]) == 1 and t.a[0][0] in _ACCESSORS:
+            # crate accessor (`sig.as_raw_value()`): its result is a projection of its receiver (see accessors())
+            path.append(".%s()" % t.a[0][0].split("::")[-1])
+            t = t.a[1][0]
         else:
             return None
+
+
+_ACCESSORS = set()
+
+
+def register_accessors(P):
+    """Crate functions of one parameter whose every returned value is a pure projection of that parameter
+    (`as_raw_value`, field getters): calls to them are looked through by projection_root."""
+    for k, g in P.fns.items():
+        if g.arg_count != 1 or g.kind == "Closure" or g.cfg.back_edges() or len(g.blocks) > 40:
+            continue
+        if any(t["k"] == "call" for _, t in g.calls()):
+            continue
+        ev = evaluate(g)
+        r = strip_sites(ev.ret)
+        while r.op in ("ref", "deref"):
+            r = r.a[0]
+        alts = list(r.a[0]) if r.op == "phi" else [r]
+        ok = bool(alts)
+        for a in alts:
+            pr = projection_root(a)
+            if not (pr and pr[0].a[0] == 1 and pr[1]):
+                ok = False
+        if ok:
+            _ACCESSORS.add(k)
+    return _ACCESSORS
 
 
 EFFECT_CALLS = {
@@ -610,3 +640,53 @@ def _R():
     from . import guardrules as R
 
     return R
+
+
+# ---------------------------------------------------------------------------
+# "sum over the list", however it is written
+
+
+def accumulators(P, fn):
+    """Where fn adds list elements into an accumulator: a loop with `+=` / `acc = acc + x`, or the closure of
+    `fold` / `try_fold`.  Each: dict(mode, fn, bb, lits, elem, source, every, captures) - `lits` the conditions under
+    which the element is added, `elem` the element term in that function's terms, `source` what is iterated."""
+    from . import guardrules as R
+    from ..core.terms import subst
+
+    ev = evaluate(fn)
+    cfg = fn.cfg
+    out = []
+    headers = {}
+    for src_b, h in cfg.back_edges():
+        headers.setdefault(h, []).append(src_b)
+    for h, latches in sorted(headers.items()):
+        body = set()
+        for src_b in latches:
+            body |= set(cfg.natural_loop(src_b, h))
+        accs = [b for b in sorted(body) if b in ev.sites and ev.sites[b].callee[0] in ("AddAssign::add_assign",)]
+        for b in accs:
+            srcs = [s for bb, s in R.loop_sources(fn) if bb in body]
+            out.append({"mode": "loop", "fn": fn, "bb": b, "lits": G.path_literals(ev, b, P), "elem": strip_sites(ev.sites[b].args[1]), "source": srcs[0] if srcs else None, "every": all(cfg.dominates(b, s_) for s_ in latches), "cap": {}})
+    for b, s in sorted(ev.sites.items()):
+        if s.callee[0] not in ("Iterator::fold", "Iterator::try_fold") or len(s.args) != 3:
+            continue
+        clo = B.peel(s.args[2])
+        if not (clo.op == "agg" and clo.a[0][0] == "closure"):
+            continue
+        g = P.fns.get(clo.a[0][1])
+        if g is None or g.cfg.back_edges():
+            continue
+        gev = evaluate(g)
+        envp = T("param", 1, gev.pname(1))
+        cap = {}
+        for i, c in enumerate(clo.a[1]):
+            for base in (envp, T("deref", envp)):
+                cap[T("field", base, str(i))] = strip_sites(c)
+        sites = [(gb, gs) for gb, gs in sorted(gev.sites.items()) if gs.callee[0] in ("AddAssign::add_assign", "Add::add")]
+        # every non-error way through the closure adds the element
+        okb = R.ok_blocks(g) if "Result<" in (g.locals[0].get("ty") or "") else list(gev.ret_at)
+        for gb, gs in sites:
+            lits = R.subst_literals(G.path_literals(gev, gb, P), cap, P)
+            every = bool(okb) and all(g.cfg.dominates(gb, ob) for ob in okb)
+            out.append({"mode": s.callee[0].split("::")[-1], "fn": g, "bb": gb, "lits": lits, "elem": strip_sites(subst(gs.args[1], cap)), "source": strip_sites(s.args[0]), "every": every, "cap": cap})
+    return out
